@@ -449,6 +449,9 @@ def check_C17(tier, seed):
                      'after clear() the object is re-keyed before further use; after a REJECTED set_key (returns false: "the key was not set") the object goes on under its old key in half of the cases',
                      'after a failed byte_array decrypt the output array may be empty, all zero or untouched; bytes derived from the rejected packet are not accepted']
     exe, v = compile_obligation('C17', 'cppobj')
+    if not v:
+        # the same translation unit against the headers in the ASCON_NO_STL configuration (the library's own byte_array)
+        exe, v = compile_obligation('C17', 'cppobj', 'asm', (4, 2, 4), 'nostl')
     if v:
         known, fixed = D.load_known()
         k = D.known_match(v['cls'], known)
@@ -468,6 +471,9 @@ def check_C17(tier, seed):
     for i, (be, sh) in enumerate(cfgs):
         exe = world_exe('cppobj', be, sh, 'rel')
         o.add(D.run_batch(exe, n if i == 0 else n // 5, tier, seed, label='cppobj@%s-%d%d%d' % (be, *sh), crash_prop='C17'))
+    # ASCON_NO_STL configuration: byte_array is the library's own reference-counted class there, and every byte_array
+    # overload of the wrappers goes through it
+    o.add(D.run_batch(world_exe('cppobj', 'asm', (4, 2, 4), 'nostl'), n // 3, tier, seed, label='cppobj@asm-424-nostl', crash_prop='C17'))
     o.extra['distinct_states_measure'] = 'visited (class, construction/keying path, overload, tamper kind, length class) tuples'
     return o.finish()
 
